@@ -62,6 +62,20 @@ def handleTT (ins outs : List J) : Verdict :=
                  if alt == 0 then I.scale 2 (I.sub (I.ofRat 1) cAbs)
                  else if alt < 0 then c else I.sub (I.ofRat 1) c
                [("ttest-P", decide (want.lo - 4 / 1000000000 ≤ gp ∧ gp ≤ want.hi + 4 / 1000000000), s!"go P={ratStr gp} reference [{ratStr want.lo},{ratStr want.hi}] dof={nu}")]
+             else if st.dof > 0 && st.dof ≤ 10000 then
+               -- non-integer DoF (Welch): series reference through the incomplete beta function
+               let tAbs := I.sqrt (I.ofRat t2)
+               let lo := ratMax 0 (tAbs.lo * (1 - rt) - rt); let hi := tAbs.hi * (1 + rt) + rt
+               match Special.tCDFgen st.dof lo, Special.tCDFgen st.dof hi with
+               | some cl, some ch =>
+                 let cAbs : I := ⟨cl.lo, ch.hi⟩              -- CDF(|T|)
+                 let c : I := if st.num ≥ 0 then cAbs else I.sub (I.ofRat 1) cAbs
+                 let want : I :=
+                   if alt == 0 then I.scale 2 (I.sub (I.ofRat 1) cAbs)
+                   else if alt < 0 then c else I.sub (I.ofRat 1) c
+                 -- DoF itself carries the forward error of the variances
+                 [("ttest-P", decide (want.lo - 4 / 1000000000 - 64 * rt ≤ gp ∧ gp ≤ want.hi + 4 / 1000000000 + 64 * rt), s!"go P={ratStr gp} series reference [{ratStr want.lo},{ratStr want.hi}] dof={ratStr st.dof}")]
+               | _, _ => []
              else []
            verdictOf (tag ++ (if pRef.isEmpty then " wiring-only" else " reference-P"))
              ([("ttest-N", g1 == st.n1 && g2 == st.n2, s!"go {g1},{g2} model {st.n1},{st.n2}"),
